@@ -17,7 +17,7 @@ from ..report import AnalysisError
 from ..term import Resolver, pmatch, abstract, anf_of
 
 REL = "inference/pdf/hdi.py"
-FLOORS = {"input-layout": 1, "float-arithmetic": 1, "ownership": 1, "window-offset": 3, "axis-discipline": 5, "endpoints-are-samples": 1, "result-keyed-on-values": 1}
+FLOORS = {"input-layout": 2, "float-arithmetic": 1, "ownership": 1, "window-offset": 3, "axis-discipline": 5, "endpoints-are-samples": 1, "result-keyed-on-values": 1}
 
 
 NEUTRAL_CALLS = {"array", "asarray", "asanyarray", "copy", "ascontiguousarray", "asfortranarray", "atleast_1d", "deepcopy"}
@@ -287,6 +287,31 @@ def _run_main(prog, tier):
         obs.append(struct_ob("window-offset", construct + "[widths]", True, "", REL, fn.lineno,
                              slots={"widths": f"{found[2]['_s']}[{found[2]['_L']}:] - {found[2]['_s']}[:{found[2]['_n']} - {found[2]['_L']}]"}))
     sname = found[2]["_s"] if found else "s"
+    # the windows are used whenever there is one: the guard around them is n > L (every fraction < 1 of two or more draws), not a
+    # stricter test that sends small samples to the full range
+    if found:
+        am = [n_ for n_ in ast.walk(fn) if isinstance(n_, ast.Call) and isinstance(n_.func, ast.Attribute) and n_.func.attr == "argmin"]
+        guards_ = [i_ for i_ in ast.walk(fn) if isinstance(i_, ast.If) and am and any(x is am[0] for b_ in i_.body for x in ast.walk(b_))]
+        for g_ in guards_:
+            t_ = rz.term(g_.test, g_)
+            okg, shown = False, U(t_)[:100]
+            if isinstance(t_, ast.Compare) and len(t_.ops) == 1:
+                try:
+                    ABS_ = [(f"{found[2]['_s']}.shape[0]", "n"), (f"len({found[2]['_s']})", "n")]
+                    rc_ = _RowCount(fn, found[2]['_s'])
+                    l_ = anf_of(abstract(rc_.visit(t_.left), ABS_)[0])
+                    r_ = anf_of(abstract(rc_.visit(t_.comparators[0]), ABS_)[0])
+                    Lv_ = anf_of(abstract(rc_.visit(ast.parse(found[2]['_L'], mode="eval").body), ABS_)[0])
+                    want = R.sym("n") - Lv_
+                    op_ = type(t_.ops[0]).__name__
+                    d_ = (l_ - r_) if op_ in ("Gt", "GtE") else (r_ - l_) if op_ in ("Lt", "LtE") else None
+                    if d_ is not None:
+                        okg = d_.eq(want) if op_ in ("Gt", "Lt") else d_.eq(want - 1)
+                except Exception:
+                    okg = False
+            obs.append(struct_ob("window-offset", construct + "[guard]", okg,
+                                 f"the shortest window is searched whenever n > L; the guard is `{shown}`, which excludes samples for which "
+                                 f"windows exist (they get the full range instead of the shortest interval)", REL, g_.lineno, tier="F"))
 
     # ---------------------------------------------------------------- axis discipline
     checks = []
@@ -328,12 +353,40 @@ def _run_main(prog, tier):
     # ---------------------------------------------------------------- end points are selections of sample values
     ok = all(not any(isinstance(n_, ast.BinOp) for n_ in ast.walk(ast.Module(body=[s], type_ignores=[]).body[0].value)
                      if not _inside_index(s.value, n_)) for s in stores)
-    obs.append(struct_ob("endpoints-are-samples", construct, ok and len(stores) == 4,
+    # ... of the values the caller gave: no conversion on the way to the working copy may change them (a narrower float type rounds every
+    # value; an integer type truncates), and nothing rounds / rescales the requested fraction
+    lossy = []
+    WIDE = ("float", "float64", "'float64'", '"float64"', "double", "'double'", "np.float64", "numpy.float64", "'f8'", '"f8"', "longdouble", "float128")
+    for n_ in ast.walk(fn):
+        if isinstance(n_, ast.Call) and isinstance(n_.func, ast.Attribute) and n_.func.attr == "astype" and n_.args:
+            if U(n_.args[0]) not in WIDE:
+                lossy.append((n_.lineno, U(n_)[:80]))
+        if isinstance(n_, ast.Call):
+            dt = get_kw(n_, "dtype")
+            if dt is not None and U(n_.func) in ("array", "asarray", "zeros_like", "empty_like") and U(dt) not in WIDE and n_.args \
+                    and any(isinstance(x, ast.Name) and x.id == fn.args.args[0].arg for x in ast.walk(n_.args[0])):
+                lossy.append((n_.lineno, U(n_)[:80]))
+    obs.append(struct_ob("endpoints-are-samples", construct, ok and len(stores) == 4 and not lossy,
                          "both end points must be sample values selected by index (no arithmetic on the values), which is what "
-                         "makes the result covariant under positive affine maps", REL, fn.lineno,
+                         "makes the result covariant under positive affine maps"
+                         + ("; " + "; ".join(f"line {l}: `{t}` converts the sample to a type that does not hold its values exactly" for l, t in lossy[:2])
+                            if lossy else ""), REL, lossy[0][0] if lossy else fn.lineno,
                          slots={"stores": [U(s) for s in stores]}))
 
     obs.append(_input_layout(fn, construct))
+    # rows are draws and columns are variables because the caller says so: the axes are never exchanged on the strength of the shape
+    swaps = []
+    for st_ in ast.walk(fn):
+        if isinstance(st_, (ast.Assign, ast.AugAssign)):
+            v_ = st_.value
+            for n_ in ast.walk(v_):
+                if (isinstance(n_, ast.Attribute) and n_.attr == "T") or (isinstance(n_, ast.Call) and U(n_.func).split(".")[-1] in
+                                                                           ("transpose", "swapaxes", "moveaxis", "rollaxis")):
+                    swaps.append((st_.lineno, U(st_)[:80]))
+    obs.append(struct_ob("input-layout", construct + "[axes-kept]", not swaps,
+                         "the sample's axes are exchanged: " + "; ".join(f"line {l}: `{t}`" for l, t in swaps[:2])
+                         + " - a sample with fewer draws than variables (or whatever the test looks at) is analysed along the wrong axis",
+                         REL, swaps[0][0] if swaps else fn.lineno))
 
     obs.extend(dtype_hazard_obligations(prog, "float-arithmetic", ['inference/pdf/hdi.py']))
     from .common import call_order_obligations
